@@ -113,8 +113,8 @@ namespace sqf::parser::preprocessor
                             {
                                 _next();
                                 is_in_block_comment = false;
-                                c = next();
-                                break;
+                                // next() already did all the handling of the character it returns
+                                return next();
                             }
                         }
                     }
